@@ -22,6 +22,57 @@ static rc::Gen<Val> genVal()
       gen::set(&Val::s, genStr()), gen::set(&Val::v, ints), gen::set(&Val::vs, pbt::vec(genStr(), 4)), gen::set(&Val::vv, pbt::vec(genInts(5), 4)));
 }
 
+// Values that ALIAS the writer: a slice of the bytes written so far, or the writer's whole buffer as an array value, is
+// written to that same writer (a message that embeds a copy of its own header; `writer << *writer.buffer`).  They are
+// values like any other: what is appended is what the source held when the write began, whether or not the append
+// makes the buffer reallocate.  Model: a std::vector<uint8_t>.  Under ASan a source that dangles after the growth is a report.
+static void runSelfAppend(const std::vector<pbt::Op> &ops, pbt::Ctx &ctx)
+{
+  BufferWriter bw;
+  std::vector<uint8_t> model;
+  bool selfSlice = false;
+  for (const pbt::Op &o : ops) {
+    switch (o.k) {
+    case 0: {  // fresh bytes
+      std::vector<uint8_t> fresh((size_t)o.a);
+      for (size_t i = 0; i < fresh.size(); ++i)
+        fresh[i] = (uint8_t)(o.b * 31 + (long long)i * 7 + 1);
+      bw.write(fresh.data(), fresh.size());
+      model.insert(model.end(), fresh.begin(), fresh.end());
+      break;
+    }
+    case 1: {  // a slice of what was written so far
+      if (model.empty())
+        break;
+      size_t off = (size_t)o.a % model.size();
+      size_t len = 1 + (size_t)o.b % (model.size() - off);
+      std::vector<uint8_t> slice(model.begin() + (long)off, model.begin() + (long)(off + len));
+      bw.write(bw.buffer->data() + off, len);
+      model.insert(model.end(), slice.begin(), slice.end());
+      selfSlice = true;
+      ctx.label("slice of the writer's own buffer");
+      break;
+    }
+    default: {  // the whole buffer as an array value: element count, then the elements
+      std::vector<uint8_t> whole = model;
+      const uint64_t sz = whole.size();
+      static_cast<WriteStream &>(bw) << static_cast<const rkcommon::utility::AbstractArray<uint8_t> &>(*bw.buffer);
+      for (int i = 0; i < 8; ++i)
+        model.push_back((uint8_t)(sz >> (8 * i)));
+      model.insert(model.end(), whole.begin(), whole.end());
+      if (sz) {
+        selfSlice = true;
+        ctx.label("the writer's own buffer as an array value");
+      }
+      break;
+    }
+    }
+    PBT_ASSERT_MSG(bw.buffer->size() == model.size(), "the buffer holds " << bw.buffer->size() << " bytes, the model " << model.size());
+    PBT_ASSERT_MSG(model.empty() || memcmp(bw.buffer->data(), model.data(), model.size()) == 0, "the buffer differs from the model after op kind " << o.k);
+  }
+  ctx.nt(selfSlice);
+}
+
 static void register_properties()
 {
   using namespace rc;
@@ -30,5 +81,6 @@ static void register_properties()
   auto op = gen::tuple(gen::weightedElement<int>({{4, 0}, {4, 1}, {1, 2}}), pbt::range<int>(0, 8), pbt::range<long long>(0, (1ll << 40)));
   pbt::property<FixedCase>("fixed_writer_model", 6000,
       gen::build<FixedCase>(gen::set(&FixedCase::capacity, pbt::range<int>(0, 64)), gen::set(&FixedCase::ops, pbt::vec(op, 12))), runFixed);
+  pbt::property<std::vector<pbt::Op>>("self_append", 1500, pbt::vec(pbt::genOpWeighted({{3, 0}, {4, 1}, {1, 2}}, 40, 300, 0), 14), runSelfAppend);
 }
 PBT_MAIN("C15_stream")
